@@ -8,11 +8,15 @@ import (
 
 var coll = vkit.NewCollector("C08", "TestCtxHooks", "bus without a store or persisting to a memory store, to a store that refuses calls whose context is done, or to one that rejects every second append; handler lists of 0-8 (sync/async x plain/context-aware x Sequential, optionally yielding; publishes issued by one goroutine or by 2-4 concurrent ones; one may cancel the publish context when it runs; sync ones may publish a nested event), publish contexts of the standard library or of a foreign implementation (own Done channel and Err); 1-4 publishes each with Publish, a context with 0-3 values, or an already-cancelled context; any subset of the four publish hooks (options or Set* methods), with or without an Observability that replaces the context. Oracle = rules over the recorded trace: already cancelled => no handler ever runs; after a synchronous handler cancels, no later synchronous handler starts and all earlier ones ran once; never cancelled => every handler exactly once; context-aware handlers see every value and their context ends with the parent; every installed hook exactly once per publish (also nested, cancelled, zero handlers), before-hooks before the first handler start and after-hooks after the last synchronous handler return, with the event and its reflect.Type. Non-trivial = cancelled by a handler with handlers after it, or >=2 hooks with >=1 handler.")
 
+var collReg = vkit.NewCollector("C08", "TestHooksUnderRegistryChanges", "all four publish hooks installed (optionally with an Observability that replaces the context); 1-6 handlers from {plain, Once, Once+Async, a handler that calls ClearAll, one that clears the type, one that subscribes a further Once handler}, 1-5 publishes (the handler set is subscribed again before the third). Which handlers run is C01's concern; oracle here: for every publish, whatever its handlers did to the registry, each before hook ran exactly once before the first handler and each after hook exactly once after the last synchronous one. Non-trivial = a handler that is Once or changes the registry.")
+
+func TestHooksUnderRegistryChanges(t *testing.T) { vkit.Check(t, collReg, GenReg, RunReg) }
+
 func TestMain(m *testing.M) { vkit.Main(m) }
 
 func TestCtxHooks(t *testing.T) { vkit.Check(t, coll, Gen, Run) }
 
 func TestReplay(t *testing.T) {
 	r := vkit.NeedReplay(t)
-	vkit.ReplayCase(t, r, coll, Run)
+	_ = vkit.ReplayCase(t, r, coll, Run) || vkit.ReplayCase(t, r, collReg, RunReg)
 }
